@@ -40,5 +40,13 @@ CFG = DC.Config("C15", D.ALL_KINDS, make_cmds, nsets=(12, 40), big=True, extra_e
                      "must extract intact. Non-trivial = a query command; distinct by (kind, params, S, command).")
 
 
+# few strings with one very long, highly compressible member: every size field of the image (compressed text bytes, number of
+# symbols, table sizes) is then SMALLER than the longest string, so a maxlength derived from / clamped by another field shows
+ALLK = tuple(D.ALL_KINDS)
+CFG.extra_sets = [(ALLK, "longrun3000", sorted([b"a" * 3000, b"a" * 3000 + b"b", b"a" * 3000 + b"c", b"b"]), None),
+                  (ALLK, "runs100-600", sorted(b"x" * k for k in (100, 200, 300, 400, 500, 600)), None),
+                  (ALLK, "single1000", [b"ab" * 500], None)]
+
+
 def check(run, tier, seed, replay):
     DC.run(run, CFG, tier, seed, replay)
